@@ -26,7 +26,7 @@
 (*  Crash   post                     process killed and store reopened       *)
 (*  Fault   id post q bc             Submit during which the engine failed   *)
 (*  Query   fs res                   a REQ's stored answer                   *)
-(*  Get     id found                 get_event / GET /e/<id>                 *)
+(*  Get     id found got via         get_event / GET /e/<id> (via = store|http)*)
 (***************************************************************************)
 EXTENDS Integers, Sequences, FiniteSets, TLC, Json
 
@@ -106,7 +106,10 @@ QueryStep ==
 GetStep ==
     /\ Line.a = "Get"
     /\ UNCHANGED svars
-    /\ bad' = bad \cup {<<n, l, {Line.id}>> : n \in IF Line.found = (Line.id \in store) THEN {} ELSE {"C08_GetAgrees"}}
+    /\ LET got == IF "got" \in DOMAIN Line THEN Line.got ELSE IF Line.found THEN Line.id ELSE "none"
+       IN bad' = bad \cup {<<n, l, {Line.id}>> : n \in
+                    (IF Line.found = (Line.id \in store) /\ S!A_C08_GetAgrees(store, Line.id, got) THEN {} ELSE {"C08_GetAgrees"})
+                    \cup (IF S!A_C04_LookupVerbatim(Line.id, got) THEN {} ELSE {"C04_LookupVerbatim"})}
 
 TraceNext ==
     /\ l <= Len(Trace)
